@@ -60,13 +60,21 @@ def cases(draw, tier):
     # bias: make some state accepting so that there is something to accept
     if not spec["F"] and draw(st.booleans()):
         spec["F"] = [spec["Q"][-1]]
-    return {"pda": spec, "limit": draw(st.sampled_from(LIMITS)), "L": 3 if len(spec["S"]) == 2 else 4}
+    L = 3 if len(spec["S"]) == 2 else 4
+    limit = draw(st.sampled_from(LIMITS))
+    if draw(st.booleans()):
+        # boundary: a limit equal to (or one above) the largest true closure size of this automaton on the tested words
+        sizes = [max(RP.closure_sizes(spec, w, 40)) for w in G.all_words(spec["S"], L)]
+        m = max(sizes)
+        if m <= 40:
+            limit = m + draw(st.integers(0, 1))
+    return {"pda": spec, "limit": limit, "L": L}
 
 
 CLAUSES = [
     Clause("accepts", cases, run, quick=700, thorough=6000,
            rule="random PDAs (1-4 states, push/pop/no-op/replace moves, eps-loops growing or not) x all words up to length 3-4 x closure limits "
-                "{1,2,3,5,8,20,50,1000}; oracle: exact saturation (balanced relation + unpopped pushes); sound always, complete when the reference's true "
+                "{1,2,3,5,8,20,50,1000} or exactly the largest true closure size (+0/+1); oracle: exact saturation (balanced relation + unpopped pushes); sound always, complete when the reference's true "
                 "closure sizes stay within the limit; non-trivial: a word accepted within the limit by a PDA with push and pop/replace moves"),
 ]
 KNOWN_PREDICATES = {}
